@@ -474,4 +474,27 @@ theorem model_satisfies_spec (ob : Val) (p : Prog) (k : Nat) (m0 : M) : judgeObs
     | false => simp [judgeObs, obsOf, hv, hc, hx, hr, hld, hrd]
     | true => simp [judgeObs, obsOf, hv, hc, hx, hr, hld, hrd, hcg' he]
 
+/-! ### negative examples: the oracle rejects what it should reject (one per clause of `judgeObs`) -/
+
+def obs0 : Obs := { sp := 3, csp := 2, ctx := 1, cg := 4, co := 5, po := 6, prog := 7, ct := 1, fp := 2, pc := 9, fio := 0, vio := 0, ld := 0, rd := 0 }
+def okRun : TopObs := { before := obs0, after := obs0, failed := true, crashed := false }
+
+example : judgeObs okRun = [] := by decide
+example : judgeObs { okRun with crashed := true } ≠ [] := by decide
+example : judgeObs { okRun with after := { obs0 with sp := 4 } } ≠ [] := by decide          -- a leaked value-stack slot
+example : judgeObs { okRun with after := { obs0 with csp := 3 } } ≠ [] := by decide         -- a frame left behind
+example : judgeObs { okRun with after := { obs0 with ctx := 2 } } ≠ [] := by decide         -- chain not relinked
+example : judgeObs { okRun with after := { obs0 with cg := 0 } } ≠ [] := by decide          -- command_giver after a failure
+example : judgeObs { okRun with failed := false, after := { obs0 with cg := 0 } } = [] := by decide  -- … legitimate when it completed
+example : judgeObs { okRun with after := { obs0 with co := 0 } } ≠ [] := by decide
+example : judgeObs { okRun with after := { obs0 with po := 0 } } ≠ [] := by decide
+example : judgeObs { okRun with after := { obs0 with prog := 0 } } ≠ [] := by decide
+example : judgeObs { okRun with after := { obs0 with ct := 0 } } ≠ [] := by decide
+example : judgeObs { okRun with after := { obs0 with fp := 0 } } ≠ [] := by decide
+example : judgeObs { okRun with after := { obs0 with pc := 0 } } ≠ [] := by decide
+example : judgeObs { okRun with after := { obs0 with fio := 1 } } ≠ [] := by decide
+example : judgeObs { okRun with after := { obs0 with vio := 1 } } ≠ [] := by decide
+example : judgeObs { okRun with after := { obs0 with ld := -1 } } ≠ [] := by decide         -- load-depth guard
+example : judgeObs { okRun with after := { obs0 with rd := 7 } } ≠ [] := by decide          -- destruct restriction left set
+
 end NV.C05
